@@ -1099,7 +1099,8 @@ func (a *apkg) buildLines() {
 	}
 }
 
-var reActCase = regexp.MustCompile(`case (\d+):\s*return p\.(\w+)\(`)
+// `case 3:` or a merged `case 3, 4, 5:` (a harmless merge of identical cases must not raise an alarm)
+var reActCase = regexp.MustCompile(`case ((?:\d+\s*,\s*)*\d+):\s*return p\.(\w+)\(`)
 
 // checkEmitted compares parser.gen.go written by the real run with the view's binding.
 func (a *apkg) checkEmitted() string {
@@ -1109,8 +1110,10 @@ func (a *apkg) checkEmitted() string {
 	}
 	got := map[int]string{}
 	for _, m := range reActCase.FindAllStringSubmatch(string(data), -1) {
-		k, _ := strconv.Atoi(m[1])
-		got[k] = m[2]
+		for _, ks := range strings.Split(m[1], ",") {
+			k, _ := strconv.Atoi(strings.TrimSpace(ks))
+			got[k] = m[2]
+		}
 	}
 	for i, p := range a.view.Grammar.Prods {
 		if f, ok := a.view.ActionMethods[p]; ok {
